@@ -389,6 +389,64 @@ def s3_dep(I):
     I.check('tolerance_at_most_one', t <= E18)
     I.check('executes_only_within_tolerance_of_the_pre_deposit_ratio', _within(I, a, bb, x, y, t))
 
+# ---------------------------------------------------------------- deposit tolerance on stableswap pools ("usable on every pool type")
+# The Curve arithmetic runs on concrete pools (its loops are not encoded symbolically); the caller's tolerance is the symbolic input.
+
+STABLE_SHAPES = [
+    # (reserves, decimals, amp, divisor of the reserves giving the exact-proportion deposit)
+    ((10 ** 6, 10 ** 6), (6, 6), 100, 1000),
+    ((3 * 10 ** 12, 10 ** 12), (6, 6), 85, 10 ** 6),
+    ((10 ** 9, 10 ** 21), (6, 18), 100, 1000),
+]
+
+
+def _replay_s4(m):
+    res, decs, amp, div = STABLE_SHAPES[m.get('_choices', {}).get('param:stable_pool_shape', 0)]
+    dep = [r // div for r in res]
+    sup = 10 ** 9
+    steps = [{'op': 'set_pool', 'pool': pool_json('p1', ['uA', 'uB'], list(decs), list(res), {'stable_swap': {'amp': amp}}, (0, 0, 0, []))},
+             {'op': 'mint', 'to': 'pool_manager', 'funds': [coin_j('uA', res[0]), coin_j('uB', res[1]), coin_j(_c02.LP, _c02.MINLIQ)]},
+             {'op': 'mint', 'to': 'holder', 'funds': [coin_j(_c02.LP, sup - _c02.MINLIQ)]},
+             {'op': 'mint', 'to': 'lp1', 'funds': [coin_j('uA', dep[0]), coin_j('uB', dep[1])]},
+             {'op': 'execute', 'contract': 'pool_manager', 'sender': 'lp1', 'funds': [coin_j('uA', dep[0]), coin_j('uB', dep[1])],
+              'msg': {'provide_liquidity': {'pool_identifier': 'p1', 'liquidity_max_slippage': dec_j(m['tolerance'])}}}]
+    return {'setup': {}, 'steps': steps}, len(steps) - 1
+
+
+@obligation('C13', 'S4.stableswap_deposit_with_tolerance', entries=['execute', 'provide_liquidity', 'assert_slippage_tolerance', 'compute_d'], kind='S',
+            statement='a deposit in exact pool proportion into a funded stableswap pool is accepted under every valid liquidity_max_slippage; a tolerance above 100% is refused; '
+                      'a refused deposit changes nothing',
+            bounds='three concrete two-asset stableswap pools (equal and 6/18 decimals; the Curve iterations run on concrete values), deposit = reserves / 1000 (or / 1e6); '
+                   'tolerance symbolic over every Decimal', covers=['ok_or_known'], opts={'loop_bound': 300}, replay=generic_replay(lambda m: _replay_s4(m)))
+def s4_stable_dep(I):
+    I.set_hint({'tolerance': 10 ** 16})
+    res, decs, amp, div = I.param('stable_pool_shape', STABLE_SHAPES)
+    pm_config(I)
+    b = bank_of(I)
+    put_pool(I, pool_info('p1', ['uA', 'uB'], list(decs), list(res), stable(amp), pool_fee(0, 0, 0)))
+    b.set(PM, 'uA', res[0]); b.set(PM, 'uB', res[1])
+    sup = 10 ** 9
+    b.set(PM, _c02.LP, _c02.MINLIQ); b.set('holder', _c02.LP, sup - _c02.MINLIQ)
+    b.supply[_c02.LP] = sup
+    dep = [r // div for r in res]
+    b.set('lp1', 'uA', dep[0]); b.set('lp1', 'uB', dep[1])
+    t = I.sym('tolerance', hi=U128)
+    pre = b.snapshot()
+    ch = Chain(I, _c02.CONTRACTS)
+    st, resp = ch.execute('lp1', PM, _c02.provide_msg('p1', liq_slip=Some(t)), [coin_v('uA', dep[0]), coin_v('uB', dep[1])])
+    I.observe('status', 'ok' if st == 'ok' else 'err')
+    observe_pool(I, 'p1')
+    observe_bank(I, b, [('lp1', 'uA'), ('lp1', 'uB'), ('lp1', _c02.LP), (PM, 'uA'), (PM, 'uB')], [_c02.LP])
+    I.cover('ok_or_known', {'tolerance': 10 ** 16})
+    if st == 'ok':
+        I.check('tolerance_at_most_one', t <= E18)
+        return
+    I.check('refused_deposit_changes_nothing', smt.And(smt.Eq(b.get('lp1', 'uA'), pre.get('lp1', 'uA')), smt.Eq(b.get('lp1', _c02.LP), pre.get('lp1', _c02.LP)),
+                                                    smt.Eq(b.supply[_c02.LP], pre.supply[_c02.LP])))
+    # known finding C13-stableswap-deposit-tolerance: (sqrt(D1)/sqrt(D0))^2 >= 1 is compared with the tolerance itself
+    I.check('exact_proportion_deposit_accepted_under_a_valid_tolerance', t > E18)
+
+
 # ---------------------------------------------------------------- multi-hop minimum_receive (clause shared with C04's routed-swap obligations)
 from . import c04 as _c04   # noqa: E402
-share('C04', 'C13', 'H', lambda n: n in ('R1.route_hops_AB_BC', 'R1.route_hops_AB_BA_AB'))
+share('C04', 'C13', 'H', lambda n: n in ('R1.route_hops_AB_BC', 'R1.route_hops_AB_BA_AB', 'R2.minimum_receive_boundary_AB_BC', 'R2.minimum_receive_boundary_AB_BA'))
